@@ -126,6 +126,9 @@ func TestVerifC08Histories(t *testing.T) {
 			// Usage selectors: a user clears the recorded reference(s) (forcing re-selection), possibly asking for a
 			// label the using resource does not carry yet; someone gives the using resource that label
 			"unresolve-usage": func(t *rapid.T) {
+				if !rapid.Bool().Draw(t, "really") {
+					return
+				}
 				step(act{Op: "unresolve-usage", I: idx(t), Obj: rapid.SampledFrom([]string{"by", "by", "of", "both"}).Draw(t, "side"), J: rapid.IntRange(0, 1).Draw(t, "mismatch")})
 			},
 			"label-using": func(t *rapid.T) {
